@@ -10,6 +10,7 @@ import Driver.Genesis
 import Driver.BinSearch
 import Driver.Indexer
 import Driver.Staking
+import Driver.Crypto
 
 def main (args : List String) : IO UInt32 := do
   let stdin ← IO.getStdin
@@ -27,4 +28,5 @@ def main (args : List String) : IO UInt32 := do
   | ["binsearch"] => Driver.loop stdin stdout Driver.BinSearch.step (); return 0
   | ["indexer"] => Driver.loop stdin stdout Driver.Indexer.step Evermint.Indexer.Db.empty; return 0
   | ["staking"] => Driver.loop stdin stdout Driver.Staking.step (); return 0
+  | ["crypto"] => Driver.loop stdin stdout Driver.Crypto.step (); return 0
   | _ => IO.eprintln "usage: driver <engine>"; return 2
